@@ -9,7 +9,7 @@ B. histories: the hooked binary is driven into named schedules (H2 delays in dec
 C. the property itself on every run: TMPDIR empty at exit and exit within BOUND seconds of SIGINT.
    Failing runs inside a listed class are KNOWN-FINDINGs, any other is a VIOLATION.
 """
-import json, os, shutil, signal, subprocess, time
+import gzip, io, json, os, shutil, signal, subprocess, tarfile, time
 from concurrent.futures import ThreadPoolExecutor
 import vlib
 from vlib import CACHE
@@ -21,6 +21,7 @@ EDIR = os.path.join(vlib.REPO, "logs", "programs", "evtx")
 SMALL = ["Ubuntu22-user-1000x3.journal.gz", "Ubuntu22-user-1000x3.journal.xz",
          "Ubuntu22-user-1000x3.journal.bz2", "Ubuntu22-user-1000x3.journal.lz4"]
 BIG = "RHE_91_system.journal.gz"
+N_MANY = 64
 
 
 def text_log(path, n, start):
@@ -56,6 +57,7 @@ def one_run(case):
     t0 = time.time()
     p = subprocess.Popen(cmd, env=env, stdout=subprocess.DEVNULL, stderr=subprocess.DEVNULL)
     saw = False
+    visible = None
     latency = None
     t_sig = None
     try:
@@ -66,9 +68,20 @@ def one_run(case):
                     saw = True
                     break
                 time.sleep(0.002)
+            if saw and case.get("wait_print"):
+                # wait until the coordinator has printed something (trace hook), i.e. extraction is over
+                tr = env.get("S4_VERIF_TRACE")
+                while time.time() - t0 < 60 and p.poll() is None:
+                    try:
+                        if b"\nP " in open(tr, "rb").read():
+                            break
+                    except OSError:
+                        pass
+                    time.sleep(0.005)
             if saw and p.poll() is None:
                 time.sleep(case["sigint_after_file"])
                 if p.poll() is None:
+                    visible = len(os.listdir(tmp))
                     t_sig = time.time()
                     p.send_signal(signal.SIGINT)
         elif case.get("sigint_at") is not None:
@@ -84,7 +97,7 @@ def one_run(case):
         rc = 124
         latency = 90.0
     left = sorted(os.listdir(tmp))
-    return dict(left=len(left), latency=latency, rc=rc, saw_file=saw, signalled=t_sig is not None,
+    return dict(left=len(left), latency=latency, rc=rc, saw_file=saw, signalled=t_sig is not None, visible_at_signal=visible,
                 wall=round(time.time() - t0, 3))
 
 
@@ -104,7 +117,7 @@ def model_schedule(kind, n_ntf, fast_handler):
             ev += ["EH", "EH", "EH", "EM", "EM"]
         else:                                 # handler had to wait for the lock until the source moved on
             ev += ["EW 0", "EW 0", "EH", "EH", "EH", "EM", "EM"]
-    elif kind in ("in_register_window", "blocked", "late"):
+    elif kind in ("in_register_window", "blocked", "late", "many"):
         for i in range(n_ntf):
             ev += ["EW %d" % i] * 2
         ev += ["EH", "EH", "EH", "EM", "EM"]
@@ -147,6 +160,37 @@ def run(ctx):
         shutil.copy(src, dst)
         return dst
 
+    # long-running sources, one per container kind
+    bigdir = os.path.join(root, "big")
+    os.makedirs(bigdir)
+    big_sources = []
+    for ext in ("gz", "xz", "bz2", "lz4"):
+        p = os.path.join(JDIR, "RHE_91_system.journal." + ext)
+        if os.path.exists(p) and os.path.getsize(p) > 0:
+            big_sources.append((ext, [p]))
+    plain = gzip.decompress(open(os.path.join(JDIR, BIG), "rb").read())
+    tpath = os.path.join(bigdir, "bigjournal.tar")
+    with tarfile.open(tpath, "w", format=tarfile.USTAR_FORMAT) as tf:
+        ti = tarfile.TarInfo("RHE_91_system.journal")
+        ti.size = len(plain)
+        ti.mtime = 1650000000
+        tf.addfile(ti, io.BytesIO(plain))
+    big_sources.append(("tar-journal", [tpath]))
+    etar = os.path.join(EDIR, "Microsoft-Windows-Kernel-PnP%4Configuration.tar")
+    if os.path.exists(etar) and os.path.getsize(etar) > 0:
+        big_sources.append(("tar-evtx", [etar]))
+    big_sources.append(("mix", [os.path.join(JDIR, BIG), tpath, os.path.join(JDIR, SMALL[1])]))
+    # Calibration for the many-sources run: how long do N_MANY single-source PROCESSES, started together,
+    # take on this machine right now?  That is the time N_MANY extractions need when nothing inside
+    # one process serialises them, under the current load.
+    def calib_one(i):
+        srcn = ["RHE_91_system.journal.bz2", "RHE_91_system.journal.xz"][i % 2]
+        return one_run(dict(kind="calib", dir=os.path.join(root, "calib%02d" % i), files=[os.path.join(JDIR, srcn)]))
+    tc = time.time()
+    with ThreadPoolExecutor(max_workers=N_MANY) as ex:
+        list(ex.map(calib_one, range(N_MANY)))
+    W_PROCS = time.time() - tc
+
     for rep in range(reps):
         # normal runs, all cores and confined to one cpu, 1..4 compressed sources
         for k in (1, 2, 3, 4):
@@ -185,12 +229,23 @@ def run(ctx):
                               env={"S4_VERIF_NTF_DELAY": "after_create:1500", "S4_VERIF_NTF_MATCH": "slowsrc",
                                    "S4_VERIF_PLAN": "seed=%d,max_us=400000" % rng.randrange(1 << 30)},
                               sigint_after_file=0.05))
-        # SIGINT late, while printing (a big journal keeps sending)
-        for sa in (0.02, 0.1, 0.25):
+        # SIGINT late, while printing: one long-running source per container kind, alone
+        # (gz / xz / bz2 / lz4 journals, a tar-archived journal, a tar-archived evtx), and a mix
+        for label, files_ in big_sources:
             d = newdir()
-            cases.append(dict(kind="late", dir=d, files=[os.path.join(JDIR, BIG), os.path.join(JDIR, SMALL[1])] + cyclers(d, 2),
-                              n_ntf=2, wait_files=1, env={"S4_VERIF_PLAN": "seed=%d,max_us=3000" % rng.randrange(1 << 30)},
-                              sigint_after_file=sa))
+            cases.append(dict(kind="late", container=label, dir=d, files=list(files_), n_ntf=len(files_), wait_files=1, wait_print=True,
+                              env={"S4_VERIF_PLAN": "seed=%d,max_us=3000" % rng.randrange(1 << 30),
+                                   "S4_VERIF_TRACE": os.path.join(d, "trace.txt")},
+                              sigint_after_file=rng.choice([0.02, 0.1, 0.25])))
+        # SIGINT while many sources are being extracted concurrently
+        d = newdir()
+        many = []
+        for i in range(N_MANY):
+            srcn = ["RHE_91_system.journal.bz2", "RHE_91_system.journal.xz"][i % 2]
+            dst = os.path.join(d, "m%02d." % i + ".".join(srcn.split(".")[-2:]))
+            os.symlink(os.path.join(JDIR, srcn), dst)
+            many.append(dst)
+        cases.append(dict(kind="many", dir=d, files=many, n_ntf=N_MANY, wait_files=1, sigint_after_file=0.1))
         # the only source is silent (inside a 4 s delay) when SIGINT arrives: coordinator blocked in select
         d = newdir()
         src = slow_copy(d, os.path.join(JDIR, SMALL[0]))
@@ -208,25 +263,37 @@ def run(ctx):
         h = hist.setdefault(k, dict(runs=0, leaks=0, slow=0, signalled=0))
         h["runs"] += 1
         h["signalled"] += 1 if r["signalled"] else 0
-        desc = dict(kind=k, files=[os.path.basename(f) for f in c["files"]], env=c.get("env", {}),
+        desc = dict(kind=k, container=c.get("container"), files=[os.path.basename(f) for f in c["files"]], env=c.get("env", {}),
                     sigint_after_file=c.get("sigint_after_file"), cpu=c.get("cpu"), result=r)
         if r["rc"] == 124:
             ctx.failure(desc, "process ends", "hang (killed after 90 s)")
             continue
+        if r["rc"] < 0:
+            ctx.failure(desc, "process ends by itself (exit status 0 or 1)", "killed by signal %d" % -r["rc"])
         if r["left"] != 0:
             h["leaks"] += 1
             cls = []
             if r["signalled"] and k in ("in_create_window", "early"):
                 cls = ["sigint_before_registration"]
+            if r["signalled"] and k == "many" and r["visible_at_signal"] is not None and r["visible_at_signal"] < c["n_ntf"]:
+                # some sources had not even created their file when the signal was sent:
+                # creation/registration was still in progress
+                cls = ["sigint_before_registration"]
             ctx.failure(desc, "no file left in TMPDIR", "%d file(s) left" % r["left"], cls)
-        if r["signalled"] and r["latency"] is not None and r["latency"] > BOUND:
+        bound = BOUND
+        if k == "many":
+            # the N extractions run concurrently: allow what N independent processes needed just now
+            bound = max(BOUND, 1.5 * W_PROCS)
+            desc["bound_s"] = round(bound, 2)
+            desc["n_single_source_processes_together_s"] = round(W_PROCS, 2)
+        if r["signalled"] and r["latency"] is not None and r["latency"] > bound:
             h["slow"] += 1
             cls = []
             if k in ("blocked", "in_create_window", "in_register_window", "early"):
                 # injected worker delays: the coordinator spends its time blocked in select (holding the
                 # read lock) and the handler must win the write lock in the short gaps in between
                 cls = ["sigint_while_coordinator_blocked_on_silent_workers"]
-            ctx.failure(desc, "exit within %.1fs of SIGINT" % BOUND, "%.2fs" % r["latency"], cls)
+            ctx.failure(desc, "exit within %.1fs of SIGINT" % bound, "%.2fs" % r["latency"], cls)
 
     # ---- B: leftover count vs the model schedule
     rows = []
@@ -237,6 +304,8 @@ def run(ctx):
             continue
         if c["kind"] not in ("normal", "normal_1cpu") and not r["signalled"]:
             continue                      # the run ended before the planned signal: not that schedule
+        if c["kind"] == "many":
+            continue                      # which workers had registered at the signal is not observable
         # when did the handler run, relative to the planned 1.5 s delay window that started when the
         # temp file was seen?  inside (fast) / after (slow) / too close to call (skipped)
         fast = True
